@@ -116,6 +116,15 @@ class Run:
     def note(self, s: str) -> None:
         self.notes.append(s)
 
+    def has_unlisted(self) -> bool:
+        """Is there a finding that the known-findings file does not list?"""
+        keys = set()
+        for k in load_known():
+            if k.get("property") == self.prop and k.get("status") == "known":
+                for sc in (k["scope"] if isinstance(k["scope"], list) else [k["scope"]]):
+                    keys.add((k["property"], k["rule"], k["module"], sc, k["construct"]))
+        return any(f.key() not in keys for f in self.findings)
+
     # ----------------------------------------------------------------- finish
     def finish(self, seed: int = 0) -> int:
         known = [k for k in load_known() if k.get("property") == self.prop]
